@@ -59,6 +59,49 @@ func (in *Interp) intrinsic(fn *ssa.Function, args []Val) (Val, bool) {
 		return in.nondetOf(res.At(0).Type(), nm), true
 	case name == "verifNote":
 		return nil, true
+	case name == "verifAtomCount":
+		return BVConst(uint64(len(in.atoms)), 64), true
+	case name == "verifAtomIs":
+		i := in.needInt(args[0].(*Term), "atom index")
+		if i < 0 || i >= len(in.atoms) {
+			return BoolConst(false), true
+		}
+		return BoolConst(in.atoms[i].Name == fmt.Sprint(args[1]) && in.atoms[i].OK), true
+	case name == "verifAtomNArgs":
+		i := in.needInt(args[0].(*Term), "atom index")
+		if i < 0 || i >= len(in.atoms) {
+			return BVConst(0, 64), true
+		}
+		return BVConst(uint64(len(in.atoms[i].Vals)), 64), true
+	case name == "verifAtomArg":
+		i := in.needInt(args[0].(*Term), "atom index")
+		k := in.needInt(args[1].(*Term), "atom arg index")
+		if i < 0 || i >= len(in.atoms) || k < 0 || k >= len(in.atoms[i].Vals) {
+			return BoolConst(false), true
+		}
+		rec, want := in.atoms[i].Vals[k], args[2]
+		// byte slices are compared by content (terms), everything else by reference / syntactic value
+		if rs, ok := rec.(SliceV); ok {
+			if wi, ok2 := want.(IfaceV); ok2 {
+				if ws, ok3 := wi.V.(SliceV); ok3 && rs != ws && rs.Len == ws.Len && rs.Len > 0 {
+					if _, isT := in.sliceGet(rs, 0).(*Term); isT {
+						conj := []*Term{}
+						for j := 0; j < rs.Len; j++ {
+							conj = append(conj, in.valEq(in.sliceGet(rs, j), in.sliceGet(ws, j)))
+						}
+						return in.s.And(conj...), true
+					}
+				}
+			}
+		}
+		if rt, ok := rec.(*Term); ok {
+			if wi, ok2 := want.(IfaceV); ok2 {
+				if wt, ok3 := wi.V.(*Term); ok3 && rt.Sort.String() == wt.Sort.String() {
+					return in.s.Eq(rt, wt), true
+				}
+			}
+		}
+		return BoolConst(sameRef(rec, want)), true
 	case name == "verifCanBe":
 		// existential side condition: records the label iff the condition is satisfiable on this path
 		c := args[0].(*Term)
